@@ -6,3 +6,5 @@ import LibfiveTheorems.C05
 #print axioms Libfive.C05.push_sound_on
 #print axioms Libfive.C05.pointKeep_sound
 #print axioms Libfive.C05.getBase_sound
+#print axioms Libfive.C05.intervalKeep_sound
+#print axioms Libfive.C05.interval_push_sound
